@@ -29,8 +29,8 @@ def run(chk, program, tier):
     before = len(chk.obs)
     R.gen_dec(chk, program, slots=[], rule='FRESH-MSG', with_msg=False, with_flow=True)
     # RA-SAFE from C04
-    sub = _Sub(chk, {'RA-SAFE', 'RA-RESET', 'RA-PRE', 'RA-DONE', 'RA-KEY'})
-    D.reassembly(sub, program)
+    from .. import rules_reasm as RR
+    RR.decide(chk, program, tier, ['RA-SAFE', 'RA-RESET', 'RA-PRE', 'RA-DONE', 'RA-KEY'])
 
 class _Sub:
     """forwards only the selected rules of a shared rule function"""
